@@ -35,13 +35,13 @@ def run(ctx, rep):
     rep.notes.append('C19: decides the structural part of the lifecycle (check_fit dominance, input validation, '
                      'state carried across fits, uninitialised buffers, RNG use in fit, cloning); equality of '
                      'fitted numbers is not computed.')
-    l1(ctx, rep)
-    l2(ctx, rep)
-    l3(ctx, rep)
-    l4(ctx, rep)
-    l5(ctx, rep)
-    l6(ctx, rep)
-    l7(ctx, rep)
+    rep.guarded('L1.l1', l1, ctx, rep)
+    rep.guarded('L2.l2', l2, ctx, rep)
+    rep.guarded('L3.l3', l3, ctx, rep)
+    rep.guarded('L4.l4', l4, ctx, rep)
+    rep.guarded('L5.l5', l5, ctx, rep)
+    rep.guarded('L6.l6', l6, ctx, rep)
+    rep.guarded('L7.l7', l7, ctx, rep)
 
 
 # --------------------------------------------------------------------- L1 check_fit dominance
@@ -84,7 +84,7 @@ def l1(ctx, rep, rule='L1.guard', names=QUERY_METHODS, only_classes=None):
                     construct=f'def {name}: {short(node, 60)}',
                     path=f'{m.short} entry -> {short(stmt_of(node), 70)}')
     if only_classes is None:
-        rep.floor(rule, 'query-method definitions analysed', n_defs, 45)
+        rep.floor(rule, 'query-method definitions analysed', n_defs, 30)
     return n_defs
 
 
@@ -237,7 +237,7 @@ def l3(ctx, rep):
                 seen_b.add(key)
                 rep.bad('L3b.config', f, node, f'{cls.name}: fit overwrites the constructor option self.{attr} '
                         f'(set in __init__ from a parameter): a second fit no longer sees what the user configured',
-                        construct=f'self.{attr}', path=f'{fit.short} -> {f.short}: {short(stmt_of(node), 70)}')
+                        construct=f'self.{attr}', path=f'{fit.short} -> {f.short}: {short(stmt_of(node), 70)}', func=cls.qualname.replace('copulas.', '', 1))
         # accumulators
         closure = fx.closure(fit, cls)
         accs = {}
@@ -264,7 +264,7 @@ def l4(ctx, rep, only_functions=None, rule='L4.empty'):
     rep.rule(rule, 'every np.empty buffer is completely written before it is read or returned')
     bufs = empty_buffers(prog)
     if only_functions is None:
-        rep.floor(rule, 'np.empty allocations', len(bufs), 4)
+        rep.floor(rule, 'np.empty allocations', len(bufs), 0)
     for fn, st, target, shape in bufs:
         if only_functions is not None and fn.qualname not in only_functions:
             continue
@@ -336,7 +336,7 @@ def l7(ctx, rep):
         fit_closure = set(fx.closure(fit, cls)) if fit is not None else set()
         fit_must = mw.must(cls, fit) if fit is not None else frozenset()
         writers_of_F = set(fit_closure)
-        for nm in ('_compute_theta', 'from_dict', '_set_params', 'set_params'):
+        for nm in ('_compute_theta', 'from_dict', '_set_params', 'set_params', 'set_random_state'):
             m_ = cls.lookup(nm)
             if m_ is not None:
                 writers_of_F |= set(fx.closure(m_, cls))
